@@ -81,6 +81,8 @@ def parse (s : Str) : Option Path :=
 /-- The text `s` is a valid object path. -/
 def ValidText (s : Str) : Prop := (parse s).isSome = true
 
+instance (s : Str) : Decidable (ValidText s) := by unfold ValidText; infer_instance
+
 /-- `p` is a proper element-wise prefix of `q`. -/
 def properPrefix : Path → Path → Bool
   | [], [] => false
